@@ -170,8 +170,8 @@ mjd2ht(const unsigned int *cal, size_t nm, mjd_t d)
 	unsigned int m;
 
 	for (i = 0U; i < nm && MT(cal)[i] <= d; i++);
-	if (UNLIKELY(i >= nm)) {
-		/* that's beyond our time */
+	if (UNLIKELY(i == 0U || i >= nm)) {
+		/* that's before or beyond our time */
 		goto nil;
 	}
 	/* M is the month count */
@@ -212,7 +212,7 @@ __ndim_ht(const unsigned int *cal, size_t nm, unsigned int y, unsigned int m)
 /* return the number of days in (hijri) month M in (hijri) year Y. */
 	const unsigned int i = (y - 1U) * 12U + (m - 1U) - SM(cal);
 
-	if (UNLIKELY(i + 1U >= nm)) {
+	if (UNLIKELY(i >= nm - 1U)) {
 		return 0U;
 	}
 	return MT(cal)[i + 1U] - MT(cal)[i + 0U];
@@ -362,9 +362,15 @@ echs_instant_rescale(echs_instant_t i, echs_scale_t tgt)
 			break;
 		case SCALE_HIJRI_UMMULQURA:
 			d = ht2mjd(dat_ummulqura, NM(dat_ummulqura), ymp);
+			if (UNLIKELY(!d)) {
+				goto nul;
+			}
 			break;
 		case SCALE_HIJRI_DIYANET:
 			d = ht2mjd(dat_diyanet, NM(dat_diyanet), ymp);
+			if (UNLIKELY(!d)) {
+				goto nul;
+			}
 			break;
 		default:
 			goto nul;
